@@ -80,6 +80,19 @@ def size(t):
     return 1 + sum(size(c) for c in t[1:] if isinstance(c, tuple))
 
 
+@functools.lru_cache(maxsize=200000)
+def has_tail_recur(t):
+    """is there a recur in tail position of t (so t itself must stay in tail position and cannot be wrapped in a marker)?"""
+    tag = t[0]
+    if tag == "recur":
+        return True
+    if tag == "if":
+        return has_tail_recur(t[2]) or has_tail_recur(t[3])
+    if tag in ("do", "let"):
+        return has_tail_recur(t[2])
+    return False
+
+
 # ----------------------------------------------------------------------------- printing
 
 NAMING = {
@@ -139,7 +152,7 @@ def to_text(t, naming="plain", trace=False):
             s = f"[{go(t[1], depth)} {go(t[2], depth)}]"
         else:
             raise ValueError(t)
-        if trace:
+        if trace and not has_tail_recur(t):
             return f"(tr {k} {s})"
         return s
 
@@ -222,7 +235,7 @@ class Ref:
             ctr[0] += size(child)
 
         def done(v):
-            if self.trace and tag != "recur":
+            if self.trace and not has_tail_recur(t):
                 self.log.append(k)
             return v
 
@@ -395,7 +408,7 @@ class HoistRef(Ref):
             ctr[0] += size(child)
 
         def wrap(th):
-            if not self.trace or tag == "recur":
+            if not self.trace or has_tail_recur(t):
                 return th
 
             def logged():
@@ -491,15 +504,10 @@ class HoistRef(Ref):
             sub(t[2])()
             return const(v)
         if tag == "def":
-            e = sub(t[1])
-
-            def th():
-                v = e()
-                self.glob[0] = v
-                self.glob[1] = True
-                return VarRef(self.glob)
-
-            return wrap(th)
+            v = sub(t[1])()  # the init value is bound by a statement (dependency time)
+            self.glob[0] = v
+            self.glob[1] = True
+            return const(VarRef(self.glob))
         if tag == "vec":
             a = sub(t[1])
             b = sub(t[2])
